@@ -4,7 +4,7 @@ sys.path.insert(0, os.path.dirname(__file__))
 from _common import main
 import vbs_common as V
 
-BOUND = 'files of 35..75 KiB cut around 4/8/16/32/64 KiB and at the end; records ending in runs of 0x40 (blank-filled data); VBS, blocked-VBS and IPM files of 1..7 records with record ends swept across block edges; every truncation offset 0..len (quick: every offset of 6 files; thorough: 40 files)'
+BOUND = 'list helper on cut data; one file object cut, rewound and read by a second reader; files of 35..75 KiB cut around 4/8/16/32/64 KiB and at the end; records ending in runs of 0x40 (blank-filled data); VBS, blocked-VBS and IPM files of 1..7 records with record ends swept across block edges; every truncation offset 0..len (quick: every offset of 6 files; thorough: 40 files)'
 
 
 def build(kind, lens):
@@ -23,7 +23,48 @@ def build(kind, lens):
     return f.getvalue(), blocked
 
 
+def oracle_helper(inp):
+    """vbs_bytes_to_list on cut data: the complete records, or the library's data error -- never fewer/other records with a normal end"""
+    from cardutil.mciipm import vbs_bytes_to_list, MciIpmDataError
+    data, blocked = build(inp['file'], inp['lens'])
+    cut = data[:inp['t']]
+    want, ending, _ = V.ref_parse(V.ref_payload(cut) if blocked else cut)
+    try:
+        got = vbs_bytes_to_list(cut, blocked=blocked)
+    except MciIpmDataError:
+        return None if ending == 'error' else 'helper: vbs_bytes_to_list raised the data error on a cut holding only complete records (%s lens=%s cut=%d)' % (inp['file'], inp['lens'], inp['t'])
+    except Exception as e:
+        return 'other-exception: vbs_bytes_to_list raised %s' % type(e).__name__
+    if got != want:
+        return 'helper: vbs_bytes_to_list delivered %d records, the surviving bytes hold %d complete ones (%s lens=%s cut=%d)' % (len(got), len(want), inp['file'], inp['lens'], inp['t'])
+    return None
+
+
+def oracle_same_handle(inp):
+    """the same file object read again after being cut (or rewound): the second reader sees the surviving bytes only"""
+    from cardutil.mciipm import VbsReader
+    data, blocked = build(inp['file'], inp['lens'])
+    f = io.BytesIO(data)
+    first, e1, _ = V.read_all(VbsReader(f, blocked=blocked))
+    f.truncate(inp['t'])
+    f.seek(0)
+    cut = data[:inp['t']]
+    want, ending, _ = V.ref_parse(V.ref_payload(cut) if blocked else cut)
+    got, gend, exc = V.read_all(VbsReader(f, blocked=blocked))
+    if gend.startswith('crash'):
+        return 'other-exception: second reader on the same handle raised %s' % gend[6:]
+    if got != want:
+        return 'same-handle: after the file object was cut to %d bytes and rewound, a new reader delivered %d records, %d survive (%s)' % (inp['t'], len(got), len(want), inp['file'])
+    if gend != ending:
+        return 'same-handle: new reader on the cut handle ended with %s, expected %s' % (gend, ending)
+    return None
+
+
 def oracle(inp):
+    if inp.get('kind') == 'helper-cut':
+        return oracle_helper(inp)
+    if inp.get('kind') == 'same-handle':
+        return oracle_same_handle(inp)
     if inp.get('kind') == 'cut':
         data, blocked = build(inp['file'], inp['lens'])
         t = inp['t']
@@ -43,6 +84,13 @@ def oracle(inp):
 
 
 def cases(tier, rng):
+    for kind, lens in (('blocked40', [30, 2, 700]), ('vbs40', [9, 40, 64]), ('blocked', [1004, 7]), ('vbs', [10, 1, 300])):
+        data, _ = build(kind, lens)
+        for t in range(0, len(data) + 1, 1 if len(data) < 500 else 3):
+            yield {'kind': 'helper-cut', 'file': kind, 'lens': lens, 't': t}
+        for t in sorted({0, 4, 14, len(data) // 2, 1014, 1500, len(data) - 1014, len(data) - 5, len(data)}):
+            if 0 <= t <= len(data):
+                yield {'kind': 'same-handle', 'file': kind, 'lens': lens, 't': t}
     files = [('blocked40', [30, 2, 700]), ('vbs40', [9, 40]), ('blocked40', [1008, 1100, 6]), ('vbs', [10, 1, 300]), ('blocked', [1004]), ('blocked', [1008, 5]), ('blocked', [1007, 1010, 3]), ('blocked', [2100, 20]), ('ipm', [5, 500, 989, 3, 77, 800, 12])]
     if tier == 'thorough':
         for a in range(1000, 1017):
